@@ -128,7 +128,7 @@ def hsDirIn : CType → Dir
   | _ => .bwd
 
 inductive Reason
-  | unknownCircuit | decryptFail | notEncrypted | tooManyEarly | earlyFlag | plaintextRule | emptyMsg | noOther
+  | unknownCircuit | noKeys | decryptFail | notEncrypted | tooManyEarly | earlyFlag | plaintextRule | emptyMsg | noOther
   | noRoute | fuel
   deriving DecidableEq, Repr
 
@@ -175,28 +175,41 @@ def sendCell (nd : Node A) (target : Nat) (c : Cell) : Node A × Option (Nat × 
   | none => (nd1, none)
   | some c2 => ({ nd1 with ctr := nd1.ctr + 8 }, some (target, c2))
 
+/-- own circuit that has no hop (hence no key) yet: still waiting for the created message -/
+def noKeysYet (ci : Option (CircuitE A)) (xe : Option (ExitE A)) : Bool :=
+  match ci, xe with
+  | some ce, none => ce.hops.isEmpty
+  | _, _ => false
+
+/-- `incoming_crypto`, exit-socket branch -/
+def exitIncoming (k : A.Key) (c : Cell) : Except Reason Cell :=
+  match decryptCell A .fwd [k] c with
+  | none => .error .decryptFail
+  | some c1 => .ok c1
+
+/-- `incoming_crypto`, own-circuit branch: all hop layers in hop order, then the end-to-end layer if there is one -/
+def ownIncoming (ce : CircuitE A) (c : Cell) : Except Reason Cell :=
+  match decryptCell A .bwd ce.hops c with
+  | none => .error .decryptFail
+  | some c1 =>
+    match ce.hs with
+    | some hk =>
+      match decryptCell A (hsDirIn ce.ctype) [hk] c1 with
+      | none => .error .decryptFail
+      | some c2 => .ok c2
+    | none => .ok c1
+
 /-- `incoming_crypto` -/
 def incomingCrypto (nd : Node A) (c : Cell) : Except Reason Cell :=
   let ci := List.lookup c.cid nd.circuits
   let xe := List.lookup c.cid nd.exits
   if ci.isNone && xe.isNone && !c.plaintext then .error .unknownCircuit
+  else if noKeysYet ci xe && !c.plaintext then .error .noKeys
   else match xe with
-    | some x =>
-      match decryptCell A .fwd [x.key] c with
-      | none => .error .decryptFail
-      | some c1 => .ok c1
+    | some x => exitIncoming x.key c
     | none =>
       match ci with
-      | some ce =>
-        match decryptCell A .bwd ce.hops c with
-        | none => .error .decryptFail
-        | some c1 =>
-          match ce.hs with
-          | some hk =>
-            match decryptCell A (hsDirIn ce.ctype) [hk] c1 with
-            | none => .error .decryptFail
-            | some c2 => .ok c2
-          | none => .ok c1
+      | some ce => ownIncoming ce c
       | none => .ok c
 
 /-- the crypto part of `relay_cell` (inside its `try`) -/
